@@ -232,6 +232,18 @@ fn api_layers(rng: &mut Rng, out: &mut CaseOut) {
         Ok(v) if v == reference => {}
         _ => out.violate("C09:wrapper-differs", format!("{desc}: ReedSolomonEncoder differs from the default-rate codec")),
     }
+    // a third of the cases: the call follows, on this thread, a one-shot call
+    // of the same shape that failed (one shard short / one shard of another
+    // length) - the layers must agree whatever went before
+    if rng.chance(1, 3) {
+        let _ = reed_solomon_simd::encode(k, r, &originals[..k - 1]);
+        if k >= 2 {
+            let mut bad: Vec<Vec<u8>> = originals.clone();
+            bad[k - 1] = vec![0u8; size + 2];
+            let _ = reed_solomon_simd::encode(k, r, &bad);
+        }
+        out.tag("oneshot-after-failed-oneshot");
+    }
     match reed_solomon_simd::encode(k, r, &originals) {
         Ok(v) if v == reference => {}
         _ => out.violate("C09:oneshot-differs", format!("{desc}: encode() differs from the default-rate codec")),
